@@ -981,7 +981,9 @@ func (u *Unit) run(st *State, fr *Frame, b *ssa.BasicBlock, idx int) []Outcome {
 		case *ssa.Alloc:
 			t := in.Type().(*types.Pointer).Elem()
 			o := u.newObject(st, u.zero(st, t), in.Comment)
-			if in.Heap {
+			if in.Heap && (in.Comment == "new" || in.Comment == "complit" || in.Comment == "slicelit" || in.Comment == "makeslice") {
+				// explicit allocation expressions count toward the ghost allocation counter; named locals whose
+				// address is taken are left to escape analysis (not modelled)
 				st.alloc = IntAdd(st.alloc, IntK(typeSize(t)))
 			}
 			fr.regs[in] = PtrV{Obj: o}
@@ -1171,7 +1173,7 @@ func (u *Unit) run(st *State, fr *Frame, b *ssa.BasicBlock, idx int) []Outcome {
 		case *ssa.MakeSlice:
 			ln := toInt(u.val(st, fr, in.Len).(IntV))
 			cp := toInt(u.val(st, fr, in.Cap).(IntV))
-			if !u.require(st, fr, And(IntLe(IntK(0), ln), IntLe(ln, cp), IntLe(cp, IntK(1<<40))), "makeslice", in) {
+			if !u.require(st, fr, And(IntLe(IntK(0), ln), IntLe(ln, cp), IntLe(cp, IntK(1<<44))), "makeslice", in) {
 				return nil
 			}
 			et := in.Type().Underlying().(*types.Slice).Elem()
